@@ -17,16 +17,16 @@ import (
 )
 
 type Config struct {
-	Workers    int
-	Lim        Limits
-	SolverArgv []string
-	TimeoutMS  int
-	MaxPaths   int
-	Deadline   time.Time
-	Witnesses  int // number of completed paths for which a full model + observations are produced
+	Workers         int
+	Lim             Limits
+	SolverArgv      []string
+	TimeoutMS       int
+	MaxPaths        int
+	Deadline        time.Time
+	Witnesses       int // number of completed paths for which a full model + observations are produced
 	StopOnViolation bool
-	WantFuncs  bool
-	Verbose    bool
+	WantFuncs       bool
+	Verbose         bool
 }
 
 type Witness struct {
